@@ -3,7 +3,7 @@
 use happylock::Mutex;
 fn main() {
     let m = Mutex::new(0);
-    let r = unsafe { happylock::mutex::MutexRef::new(&m) }; //~ ERROR E0624
+    let r = unsafe { happylock::mutex::MutexRef::@{privfn:MutexRef}(&m) }; //~ ERROR E0624
     //~ TWIN: let r = ();
     drop(r);
 }
